@@ -28,7 +28,7 @@ import (
 
 const (
 	callWatchdog  = 20 * time.Second // a single API call / Close may not take longer
-	cancelBound   = 2 * time.Second  // a cancelled search must be back within this
+	cancelBound   = 2 * time.Second  // a cancelled search must be back within this (see judgeCancel)
 	leakGrace     = 3 * time.Second
 	runHardLimit  = 60 * time.Second
 	postCloseOps  = 4
@@ -63,6 +63,7 @@ func childMain(sj string) {
 		os.Exit(2)
 	}
 	c.out.Logs = [][]opRec{}
+	startLatMon()
 	go func() { // whole-run limit: report what we have, with a goroutine dump
 		time.Sleep(runHardLimit)
 		c.direct("deadlock", "", "the run did not finish within "+runHardLimit.String()+"\n"+allStacks(12000))
@@ -119,6 +120,105 @@ func census() (map[string]int, map[string]string) {
 		sample[sig] = blk
 	}
 	return counts, sample
+}
+
+// ---------------------------------------------------------------- promptness of a cancelled search
+
+var processStart = time.Now()
+
+// mono is the time since the process started (monotonic clock).
+func mono() time.Duration { return time.Since(processStart) }
+
+// probeCtx notes when the callee first looks at the context's values: indexImpl.SearchInContext does
+// that right after it has taken the index read lock, seen the index open and opened its reader (and
+// never before), so this is the moment the search has entered the index.
+type probeCtx struct {
+	context.Context
+	entered atomic.Int64 // mono() of the first Value call; 0 = none
+}
+
+func (p *probeCtx) Value(key any) any {
+	if p.entered.Load() == 0 {
+		p.entered.CompareAndSwap(0, int64(mono()))
+	}
+	return p.Context.Value(key)
+}
+
+// latMon measures how late this process' goroutines are woken: a goroutine sleeps latTick over and
+// over and records by how much each sleep overran.  On a machine whose CPUs are oversubscribed (or
+// when the process is stopped for a while) the overruns are what any other goroutine suffers too.
+type latSample struct{ from, to, over time.Duration }
+
+const latTick = 2 * time.Millisecond
+
+var latMon struct {
+	mu      sync.Mutex
+	samples []latSample
+	cur     atomic.Int64 // start of the sleep in progress
+}
+
+func startLatMon() {
+	latMon.cur.Store(int64(mono()))
+	go func() {
+		for {
+			t := mono()
+			latMon.cur.Store(int64(t))
+			time.Sleep(latTick)
+			e := mono()
+			if over := e - t - latTick; over > time.Millisecond {
+				latMon.mu.Lock()
+				if len(latMon.samples) < 1<<16 {
+					latMon.samples = append(latMon.samples, latSample{t, e, over})
+				}
+				latMon.mu.Unlock()
+			}
+		}
+	}()
+}
+
+// worstLatency is the largest overrun of a sleep that overlapped [from, to] (including the one still
+// in progress).
+func worstLatency(from, to time.Duration) time.Duration {
+	var w time.Duration
+	if cur := time.Duration(latMon.cur.Load()); cur <= to {
+		if over := mono() - cur - latTick; over > w {
+			w = over
+		}
+	}
+	latMon.mu.Lock()
+	defer latMon.mu.Unlock()
+	for i := len(latMon.samples) - 1; i >= 0; i-- {
+		sm := latMon.samples[i]
+		if sm.to < from {
+			break
+		}
+		if sm.from <= to && sm.over > w {
+			w = sm.over
+		}
+	}
+	return w
+}
+
+// judgeCancel: a search whose context has been cancelled must return promptly.  Judged are the
+// calls that returned the context's error or no error (a call that returned "index is closed" never
+// searched: it waited for the index lock behind Close and is judged by the closed-index rules of
+// Corr.v).  The clock starts at the later of the cancellation and the moment the search entered the
+// index, and the allowance is cancelBound or, on a starved machine, 20 times the worst wake-up
+// latency this process measured in that interval.
+func (c *child) judgeCancel(err error, start, cancelAt, entered, ret time.Duration, what string) {
+	if cancelAt == 0 || !(err == nil || errors.Is(err, context.Canceled) || errors.Is(err, context.DeadlineExceeded)) {
+		return
+	}
+	from := max(cancelAt, entered, start)
+	el := ret - from
+	if el <= cancelBound {
+		return
+	}
+	lat := worstLatency(from, ret)
+	if bound := max(cancelBound, 20*lat); el > bound {
+		c.direct("cancel-slow", "", fmt.Sprintf("%s returned %v after the later of the cancellation and its entry into the index (err=%v; call started at %v, entered the index at %v, cancelled at %v, returned at %v; worst scheduling latency measured meanwhile %v, allowance %v)",
+			what, el, err, start, entered, cancelAt, ret, lat, bound))
+	}
 }
 
 // ---------------------------------------------------------------- classification
@@ -590,17 +690,22 @@ func (rc *runCtx) worker(g int, log *[]opRec, r *vrand.R) {
 			rc.do(g, log, kind, func() error {
 				ctx, cancel := context.WithCancel(context.Background())
 				defer cancel()
-				if d == 0 {
+				pc := &probeCtx{Context: ctx}
+				var cancelAt atomic.Int64
+				doCancel := func() {
+					cancelAt.CompareAndSwap(0, int64(mono()))
 					cancel()
+				}
+				start := mono()
+				if d == 0 {
+					doCancel()
 				} else {
-					t := time.AfterFunc(d, cancel)
+					t := time.AfterFunc(d, doCancel)
 					defer t.Stop()
 				}
-				t0 := time.Now()
-				_, err := idx.SearchInContext(ctx, rc.request(id))
-				if el := time.Since(t0); el > cancelBound {
-					rc.c.direct("cancel-slow", "", fmt.Sprintf("SearchInContext with a context cancelled after %v returned after %v (err=%v)", d, el, err))
-				}
+				_, err := idx.SearchInContext(pc, rc.request(id))
+				rc.c.judgeCancel(err, start, time.Duration(cancelAt.Load()), time.Duration(pc.entered.Load()), mono(),
+					fmt.Sprintf("SearchInContext with a context cancelled %v after the call", d))
 				return err
 			})
 			// the index stays usable
@@ -841,6 +946,7 @@ func (c *child) runCancel() {
 	ctx, cancel := context.WithCancel(context.Background())
 	defer cancel()
 	handled := 0
+	var cancelAt time.Duration // set by the hit handler, on the searching goroutine
 	maker := func(sc *search.SearchContext) (search.DocumentMatchHandler, bool, error) {
 		inner, loadID, err := collector.MakeTopNDocumentMatchHandler(sc)
 		if err != nil {
@@ -850,6 +956,7 @@ func (c *child) runCancel() {
 			if d != nil {
 				handled++
 				if handled == in.CancelAt {
+					cancelAt = mono()
 					cancel()
 				}
 			}
@@ -858,18 +965,18 @@ func (c *child) runCancel() {
 	}
 	ctx2 := context.WithValue(ctx, search.MakeDocumentMatchHandlerKey, search.MakeDocumentMatchHandler(maker))
 	var serr error
-	t0 := time.Now()
+	pc := &probeCtx{Context: ctx2}
+	start := mono()
 	func() {
 		defer func() {
 			if e := recover(); e != nil {
 				c.direct("panic", "", fmt.Sprintf("cancelled search panicked: %v\n%s", e, clip(string(debug.Stack()), 4000)))
 			}
 		}()
-		_, serr = idx.SearchInContext(ctx2, bleve.NewSearchRequestOptions(bleve.NewMatchAllQuery(), 10, 0, false))
+		_, serr = idx.SearchInContext(pc, bleve.NewSearchRequestOptions(bleve.NewMatchAllQuery(), 10, 0, false))
 	}()
-	if el := time.Since(t0); el > cancelBound+3*time.Second {
-		c.direct("cancel-slow", "", fmt.Sprintf("search over %d documents cancelled at hit %d returned after %v", in.NDocs, in.CancelAt, el))
-	}
+	c.judgeCancel(serr, start, cancelAt, time.Duration(pc.entered.Load()), mono(),
+		fmt.Sprintf("search over %d documents with the context cancelled by the handler of hit %d", in.NDocs, in.CancelAt))
 	c.out.Handled = handled
 	switch c.classify(serr) {
 	case 2:
